@@ -165,6 +165,8 @@ struct shared
 	int not_exhaustive;
 	char why_not[200];
 	int crash_reported; /* the signal handler already wrote the VIOL line */
+	uint64_t crashed[256]; /* case numbers that killed a worker */
+	int ncrashed;
 	uint64_t watchdog_seen;
 	int watchdog_ticks;
 };
@@ -229,10 +231,14 @@ int mc_stat_slot(const char *name)
 }
 void mc_stat_add(int slot, long n)
 {
+	if (mc_muted)
+		return;
 	S->stat_val[slot] += n;
 }
 void mc_stat_max(int slot, long v)
 {
+	if (mc_muted)
+		return;
 	if (v > S->stat_val[slot])
 		S->stat_val[slot] = v;
 }
@@ -267,6 +273,8 @@ void mc_nontrivial(uint64_t h)
 
 void mc_sample(const char *s)
 {
+	if (mc_muted)
+		return;
 	long k = S->n_samples++;
 	int slot;
 	if (k < NSAMPLE - 1)
@@ -293,6 +301,8 @@ static const char *describe_current(void)
 }
 void mc_sample_current(void)
 {
+	if (mc_muted)
+		return;
 	long k = S->n_samples;
 	if (k >= NSAMPLE - 1 && (k & (k - 1)) != 0)
 	{
@@ -316,6 +326,8 @@ static int sig_slot(const char *sig)
 static char viol_buf[(1 << 16) + 4096];
 static void emit_violation(const char *sig, const char *msg)
 {
+	if (mc_muted)
+		return;
 	int slot = sig_slot(sig);
 	long c = ++S->sig_count[slot];
 	S->violations++;
@@ -407,6 +419,24 @@ int mc_case_begin(void)
 		return 0;
 	if (!mc_mine(n))
 		return 0;
+	S->cases_run++;
+	return 1;
+}
+
+/* a case that every shard counts (the caller has already decided it is this shard's) */
+int mc_muted; /* re-execution of already-judged cases after a worker restart: no reports, no counts */
+int mc_case_begin_all(void)
+{
+	uint64_t n = ++S->case_no;
+	mc_muted = 0;
+	if (n <= skip_until)
+	{
+		for (int i = 0; i < S->ncrashed; i++)
+			if (S->crashed[i] == n)
+				return 0;
+		mc_muted = 1; /* state-building re-run (BFS): successors are needed, verdicts are not */
+		return 2;
+	}
 	S->cases_run++;
 	return 1;
 }
@@ -695,9 +725,11 @@ int mc_main(int argc, char **argv, struct mc_harness *h)
 		}
 		S->crash_reported = 0;
 		skip_until = S->case_no;
-		if (++restarts > 200)
+		if (S->ncrashed < 256)
+			S->crashed[S->ncrashed++] = S->case_no;
+		if (++restarts > 40)
 		{
-			mc_not_exhaustive("more than 200 worker crashes; exploration abandoned");
+			mc_not_exhaustive("more than 40 worker crashes; exploration abandoned");
 			break;
 		}
 	}
